@@ -546,17 +546,27 @@ impl snap_control::api::crpc::model::SnapDataPlaneResolver for NoResolver {
 
 /// Register `identity` through the real control-plane router with a freshly signed v0 SNAP token
 /// (token key = `jti`) that expires `exp_in` seconds from now.  Returns the HTTP status.
-async fn register_via_control_plane(router: &axum::Router, sk: &ed25519_dalek::SigningKey, identity: Identity, jti: &str, exp_in: u64) -> u16 {
+/// A freshly signed v0 SNAP token (token key = `jti`) that expires `exp_in` seconds from now.
+fn make_token(sk: &ed25519_dalek::SigningKey, jti: &str, exp_in: u64) -> String {
     use base64::Engine;
     use ed25519_dalek::Signer;
-    use prost::Message;
-    use tower::ServiceExt;
     let b64 = base64::engine::general_purpose::URL_SAFE_NO_PAD;
     let now = std::time::SystemTime::now().duration_since(std::time::UNIX_EPOCH).unwrap().as_secs();
     let h = b64.encode(br#"{"typ":"JWT","alg":"EdDSA"}"#);
     let p = b64.encode(format!(r#"{{"pssid":"123e4567-e89b-12d3-a456-426614174000","exp":{},"jti":"{jti}"}}"#, now + exp_in));
     let msg = format!("{h}.{p}");
-    let tok = format!("{msg}.{}", b64.encode(sk.sign(msg.as_bytes()).to_bytes()));
+    format!("{msg}.{}", b64.encode(sk.sign(msg.as_bytes()).to_bytes()))
+}
+
+async fn register_via_control_plane(router: &axum::Router, sk: &ed25519_dalek::SigningKey, identity: Identity, jti: &str, exp_in: u64) -> u16 {
+    let tok = make_token(sk, jti, exp_in);
+    register_token(router, &tok, identity).await
+}
+
+/// POST RegisterSnapTunIdentity through the real control-plane router with the given bearer token.
+async fn register_token(router: &axum::Router, tok: &str, identity: Identity) -> u16 {
+    use prost::Message;
+    use tower::ServiceExt;
     let body = snap_control::proto::anapaya::snap::v1::RegisterSnapTunIdentityRequest { initiator_static_x25519: identity.to_vec(), psk_share: vec![0u8; 32] }
         .encode_to_vec();
     let mut req = axum::http::Request::builder()
@@ -820,6 +830,210 @@ fn gateway(outp: &str) {
     std::fs::write(outp, serde_json::to_string(&result).unwrap()).unwrap();
 }
 
+// ------------------------------------------------------------------------------------------
+// client: the real client side of the tunnel (snap-tun/src/client*: SnapTunEndpoint with its identity
+// registration loop, SnapTunnel driver) against the real gateway and control plane, in real time
+// ------------------------------------------------------------------------------------------
+
+/// control-plane client of the endpoint: registers through the real router with the token source's current token
+struct RouterCpClient {
+    router: axum::Router,
+    tokens: Arc<dyn reqwest_connect_rpc::token_source::TokenSource>,
+    log: Arc<Mutex<Vec<(Instant, String, u16)>>>,
+}
+#[async_trait::async_trait]
+impl snap_tun::client::SnapTunControlPlaneClient for RouterCpClient {
+    async fn register_identity(
+        &self,
+        identity: x25519::PublicKey,
+        _psk_share: Option<[u8; 32]>,
+    ) -> Result<Option<[u8; 32]>, reqwest_connect_rpc::client::CrpcClientError> {
+        let tok = self.tokens.get_token().await.unwrap_or_default();
+        let st = register_token(&self.router, &tok, *identity.as_bytes()).await;
+        let jti = tok.split('.').nth(1).and_then(|p| {
+            use base64::Engine;
+            base64::engine::general_purpose::URL_SAFE_NO_PAD.decode(p).ok()
+        });
+        let jti = jti.and_then(|b| serde_json::from_slice::<Value>(&b).ok()).and_then(|v| v["jti"].as_str().map(|s| s.to_string())).unwrap_or_default();
+        self.log.lock().unwrap().push((Instant::now(), jti, st));
+        Ok(None)
+    }
+}
+
+fn client_scenario(outp: &str) {
+    use reqwest_connect_rpc::token_source::mock::MockTokenSource;
+    use snap_dataplane::dispatcher::Dispatcher as _;
+    use snap_dataplane::tunnel_gateway::{
+        NoopTunnelGatewayObserver, dispatcher::TunnelGatewayDispatcher, gateway::TunnelGateway, metrics::TunnelGatewayDispatcherMetrics,
+    };
+    // token 1 lives LIFE1 s; it is renewed (token 2, LIFE2 s, another jti) well before it expires; then nothing more.
+    //   phase A  (<= LIFE1 - 6 s)            traffic flows
+    //   phase B  (>= LIFE1 + 5 s after the first registration, <= LIFE2 - 6 s after the renewal)
+    //            token 1 has lapsed, the renewal keeps the identity registered: traffic must still flow
+    //   phase C  (>= LIFE2 + 5 s after the renewal registration)   nothing flows any more
+    const LIFE1: u64 = 12;
+    const LIFE2: u64 = 24;
+    let rt = tokio::runtime::Builder::new_multi_thread().worker_threads(2).enable_all().build().expect("runtime");
+    let result = rt.block_on(async move {
+        let reg = Arc::new(IdentityRegistry::new());
+        let sock = tokio::net::UdpSocket::bind("127.0.0.1:0").await.expect("bind");
+        let gw_addr = sock.local_addr().unwrap();
+        let server_secret = x25519::StaticSecret::from([0xA5u8; 32]);
+        let server_pub = x25519::PublicKey::from(&server_secret);
+        let disp = Arc::new(RecDispatcher::default());
+        let (tgd, rx) = TunnelGatewayDispatcher::new(TunnelGatewayDispatcherMetrics::new(&scion_sdk_observability::metrics::registry::MetricsRegistry::new()));
+        let gw = TunnelGateway::new(sock, server_secret, reg.clone(), disp.clone(), Arc::new(NoopTunnelGatewayObserver), rx);
+        let cancel = tokio_util::sync::CancellationToken::new();
+        let task = tokio::spawn(gw.start_server(cancel.clone()));
+        let sk = ed25519_dalek::SigningKey::from_bytes(&[0x51; 32]);
+        let verifier = {
+            use ed25519_dalek::pkcs8::EncodePublicKey;
+            let pem = sk.verifying_key().to_public_key_pem(Default::default()).expect("pem");
+            snap_control::server::SnapTokenVerifier::new(jsonwebtoken::DecodingKey::from_ed_pem(pem.as_bytes()).expect("key"))
+        };
+        let router = snap_control::server::build_router(
+            NoUnderlays,
+            "http://127.0.0.1:1/".parse().unwrap(),
+            NoSegments,
+            NoResolver,
+            reg.clone(),
+            None,
+            verifier,
+            snap_control::server::metrics::Metrics::new(&scion_sdk_observability::metrics::registry::MetricsRegistry::new()),
+        )
+        .expect("router");
+
+        // ---- the real client
+        let client_secret = x25519::StaticSecret::from([0x33u8; 32]);
+        let client_id: Identity = *x25519::PublicKey::from(&client_secret).as_bytes();
+        let tokens = Arc::new(MockTokenSource::new(make_token(&sk, "tok-1", LIFE1)));
+        let cplog = Arc::new(Mutex::new(vec![]));
+        let cp = Arc::new(RouterCpClient { router: router.clone(), tokens: tokens.clone(), log: cplog.clone() });
+        let endpoint = snap_tun::client::SnapTunEndpoint::new(tokens.clone(), client_secret);
+        let csock = Arc::new(tokio::net::UdpSocket::bind("127.0.0.1:0").await.expect("bind client"));
+        let caddr = csock.local_addr().unwrap();
+        let pool = ana_gotatun::packet::PacketBufPool::<{ snap_tun::client::PACKET_BUF_POOL_SIZE }>::new(64);
+        let t0 = Instant::now();
+        let tunnel = match tokio::time::timeout(
+            Duration::from_secs(20),
+            endpoint.connect_tunnel(server_pub, gw_addr, "http://127.0.0.1:1/".parse().unwrap(), cp.clone(), csock.clone(), 256, pool),
+        )
+        .await
+        {
+            Ok(Ok(t)) => t,
+            other => {
+                let why = match other {
+                    Ok(Err(e)) => format!("{e}"),
+                    _ => "timeout".to_string(),
+                };
+                return json!({"connected": false, "why": why});
+            }
+        };
+        let t_reg1 = Instant::now(); // the first registration happened before this instant
+        let ip4 = [127u8, 0, 0, 1];
+        struct Sent {
+            step: String,
+            dg: Vec<u8>,
+            outbound: bool,
+        }
+        let mut sent: Vec<Sent> = vec![];
+        let mut received: Vec<(Instant, Vec<u8>)> = vec![];
+        macro_rules! drain {
+            ($ms:expr) => {{
+                let until = Instant::now() + Duration::from_millis($ms);
+                loop {
+                    let left = until.saturating_duration_since(Instant::now());
+                    if left.is_zero() {
+                        break;
+                    }
+                    match tokio::time::timeout(left, tunnel.recv()).await {
+                        Ok(Ok(b)) => received.push((Instant::now(), b.to_vec())),
+                        _ => break,
+                    }
+                }
+            }};
+        }
+        macro_rules! both {
+            ($phase:expr) => {{
+                let tag = format!("<{}:in>", $phase);
+                let dg = scion_udp(&ip4, [10, 0, 0, 9], caddr.port(), 555, 0, tag.as_bytes());
+                let _ = tunnel.send(Packet::copy_from(&dg[..])).await;
+                sent.push(Sent { step: format!("{}:in", $phase), dg, outbound: false });
+                let tag = format!("<{}:out>", $phase);
+                let pkt = scion_udp(&[10, 0, 0, 9], ip4, 555, caddr.port(), 0, tag.as_bytes());
+                {
+                    use sciparse::core::view::View;
+                    if let Ok((v, _)) = sciparse::packet::view::ScionPacketView::try_from_slice(&pkt) {
+                        tgd.try_dispatch(v);
+                    }
+                }
+                sent.push(Sent { step: format!("{}:out", $phase), dg: pkt, outbound: true });
+                drain!(500);
+            }};
+        }
+        let auth_probe = |label: &str, probes: &mut Vec<Value>| {
+            probes.push(json!({"at": label, "t": t0.elapsed().as_secs_f64(), "authorised": reg.has_authorization(Instant::now(), &client_id)}));
+        };
+        let mut probes = vec![];
+        auth_probe("A", &mut probes);
+        both!("A");
+        let a_done = t_reg1.elapsed().as_secs_f64();
+        // the token source publishes the renewed token: the endpoint's registration loop must re-register
+        tokio::time::sleep(Duration::from_millis(500)).await;
+        tokens.update_token(make_token(&sk, "tok-2", LIFE2));
+        let t_renew = Instant::now();
+        // wait (bounded) until the loop has called the control plane with the new token
+        let mut renewed_after = None;
+        for _ in 0..100 {
+            if cplog.lock().unwrap().iter().any(|(_, j, _)| j == "tok-2") {
+                renewed_after = Some(t_renew.elapsed().as_secs_f64());
+                break;
+            }
+            tokio::time::sleep(Duration::from_millis(50)).await;
+        }
+        let t_reg2 = Instant::now(); // the renewal registration (if any) happened before this instant
+        let snap_after_renew = reg.verif_snapshot();
+        // phase B: >= 5 s after token 1's registration ended
+        let b_from = t_reg1 + Duration::from_secs(LIFE1 + 5);
+        let n = Instant::now();
+        if n < b_from {
+            let d = (b_from - n).as_millis() as u64;
+            drain!(d);
+        }
+        auth_probe("B", &mut probes);
+        let b_start = t_renew.elapsed().as_secs_f64();
+        both!("B");
+        let b_done = t_renew.elapsed().as_secs_f64();
+        // phase C: >= 5 s after the renewed registration ended
+        let c_from = t_reg2 + Duration::from_secs(LIFE2 + 5);
+        let n = Instant::now();
+        if n < c_from {
+            let d = (c_from - n).as_millis() as u64;
+            drain!(d);
+        }
+        auth_probe("C", &mut probes);
+        let c_start = t0.elapsed().as_secs_f64();
+        both!("C");
+        drain!(1500);
+        cancel.cancel();
+        let _ = tokio::time::timeout(Duration::from_secs(2), task).await;
+        let dispatched = disp.got.lock().unwrap().clone();
+        let steps: Vec<Value> = sent
+            .iter()
+            .map(|s_| {
+                let n = if s_.outbound { received.iter().filter(|(_, p)| *p == s_.dg).count() } else { dispatched.iter().filter(|(_, p)| *p == s_.dg).count() };
+                json!({"step": s_.step, "count": n})
+            })
+            .collect();
+        let cps: Vec<Value> = cplog.lock().unwrap().iter().map(|(t, j, st)| json!({"t": t.duration_since(t0).as_secs_f64(), "jti": j, "status": st})).collect();
+        let assoc: Vec<Value> = snap_after_renew.0.iter().map(|(k, id)| json!([k, id == &client_id])).collect();
+        json!({"connected": true, "life1": LIFE1, "life2": LIFE2, "phase_a_done_s": a_done, "renewed_after_s": renewed_after,
+               "phase_b_start_s": b_start, "phase_b_done_s": b_done, "phase_c_start_s": c_start, "probes": probes, "control_plane_calls": cps,
+               "assoc_after_renew": assoc, "sessions_after_renew": snap_after_renew.1.len(), "log": steps})
+    });
+    std::fs::write(outp, serde_json::to_string(&result).unwrap()).unwrap();
+}
+
 fn main() {
     let a: Vec<String> = std::env::args().collect();
     if std::env::var("VERIF_LOUD").is_err() {
@@ -829,6 +1043,7 @@ fn main() {
         Some("replay") if a.len() == 4 => replay(&a[2], &a[3]),
         Some("record") if a.len() == 4 => record(&a[2], &a[3]),
         Some("gateway") if a.len() == 3 => gateway(&a[2]),
+        Some("client") if a.len() == 3 => client_scenario(&a[2]),
         _ => {
             eprintln!("usage: snaptunnel replay <hist.ndjson> <out.ndjson> | record <events.ndjson> <summary.json> | gateway <out.json>");
             std::process::exit(2);
